@@ -123,29 +123,53 @@ def run(case, out):
             _diff(out, "to_cfg:contains-of-result", gl, {w for w in le if len(w) <= 3})
     f = out.call("to_final_state", GP.build(p).to_final_state)
     if f is not FAILED:
-        _diff(out, "to_final_state:language", GP.extract(f).lang_final_state(N), le)
+        xf = _extract(out, "to_final_state", f)
+        if xf is not FAILED:
+            _diff(out, "to_final_state:language", xf.lang_final_state(N), le)
+        else:
+            f = FAILED
     e = out.call("to_empty_stack", GP.build(p).to_empty_stack)
     if e is not FAILED:
-        _diff(out, "to_empty_stack:language", GP.extract(e).lang_empty_stack(N), lf)
+        xe = _extract(out, "to_empty_stack", e)
+        if xe is not FAILED:
+            _diff(out, "to_empty_stack:language", xe.lang_empty_stack(N), lf)
+        else:
+            e = FAILED
     # conversions of conversions: the intermediate result (built by the library, not through add_transition) is the
     # "original" of the second conversion, its reference being its own extraction
     for first, y in (("to_final_state", f), ("to_empty_stack", e)):
         if y is FAILED:
             continue
-        ry = GP.extract(y)
+        ry = _extract(out, first, y)
+        if ry is FAILED:
+            continue
         if len(ry.states) > 6 or len(ry.trans) > 40:
             continue
         f2 = out.call(first + ".to_final_state", y.to_final_state)
         if f2 is not FAILED:
-            _diff(out, first + ".to_final_state:language", GP.extract(f2).lang_final_state(N), ry.lang_empty_stack(N))
+            x2 = _extract(out, first + ".to_final_state", f2)
+            if x2 is not FAILED:
+                _diff(out, first + ".to_final_state:language", x2.lang_final_state(N), ry.lang_empty_stack(N))
         e2 = out.call(first + ".to_empty_stack", y.to_empty_stack)
         if e2 is not FAILED:
-            _diff(out, first + ".to_empty_stack:language", GP.extract(e2).lang_empty_stack(N), ry.lang_final_state(N))
+            x2 = _extract(out, first + ".to_empty_stack", e2)
+            if x2 is not FAILED:
+                _diff(out, first + ".to_empty_stack:language", x2.lang_empty_stack(N), ry.lang_final_state(N))
         g2 = out.call(first + ".to_cfg", y.to_cfg)
         if g2 is not FAILED and len(ry.states) <= 4:
             rg2 = GC.extract(g2)
             got2 = {tuple(_pk(k) for k in w) for w in rg2.words_upto(N)}
             _diff(out, first + ".to_cfg:language", got2, ry.lang_empty_stack(N))
+
+
+def _extract(out, op, obj):
+    """structure of a PDA the library returned; a result that cannot even be read (a transition into `None`, say) is a
+    malformed result of `op`, not a harness error"""
+    try:
+        return GP.extract(obj)
+    except Exception as ex:
+        out.fail(op + ":malformed-result", error=type(ex).__name__ + ": " + str(ex)[:120])
+        return FAILED
 
 
 def _pk(k):
